@@ -188,6 +188,26 @@ theorem div_linear {w w' : World} {i : Nat} {k : Rat} (h : divNew w i k = .ok w'
     w'.amount w.strms.length c = w.amount i c / k ∧ w'.amount i c = w.amount i c :=
   FlowOps.div_linear h c
 
+/-! ### holders of shared flow data (phase views, flow proxies, `from_streams` constituents) -/
+
+/-- **Multiplying a stream in place multiplies what every holder of its flow data reads.**  `a` says that
+stream `a.i` holds a phase row (`a.q = some q`) or all (`none`) of the data of stream `j`; after `ms *= k` /
+`ms.scale(k)` the holder reads `k` times what it read (`holderAmount`: the holder's view re-derived from the owner). -/
+theorem scale_holder_linear {w w' : World} {j : Nat} {k : Rat} {a : Alias} {owner cur : Strm}
+    (h : scale w j k = .ok w') (haj : a.j = j) (hij : a.i ≠ j)
+    (ho : w.strms[j]? = some owner) (hc : w.strms[a.i]? = some cur) (hp : cur.pkg = owner.pkg) (c : Nat) :
+    holderAmount w' a c = holderAmount w a c * k :=
+  FlowOps.scale_holder_linear h haj hij ho hc hp c
+
+/-- **Multiplying a phase view in place** (`liq = ms['l']; liq *= k`): the row it holds is multiplied by `k`, and the
+multi-phase stream owning the row changes by exactly that. -/
+theorem scaleRow_total {w w' : World} {j : Nat} {q : Char} {k : Rat} {owner : Strm}
+    (h : scaleRow w j q k = .ok w') (ho : w.strms[j]? = some owner) (hq : hasPh owner.ph q = true) (c : Nat) :
+    w'.amount j c = w.amount j c + (k - 1) * rowKey (w.pkgOf owner) (rowOf owner.ph q) c ∧
+    (∃ owner', w'.strms[j]? = some owner' ∧
+      rowKey (w.pkgOf owner) (rowOf owner'.ph q) c = rowKey (w.pkgOf owner) (rowOf owner.ph q) c * k) :=
+  FlowOps.scaleRow_total h ho hq c
+
 /-! ### copy onto a multi-phase destination (`MultiStream.copy_flow`) -/
 
 /-- **Cut and paste onto a multi-phase destination** (`phase = ...`, `IDs = ...`, `remove=True`), single- or
@@ -309,6 +329,10 @@ example : ∀ s ∈ w0.strms, ValidPh s := by
 -- a multi-phase feed split with the energy balance: both outlets become multi-phase
 example : okAmount (split w0 0 3 5 (.scalar (1/4)) true) 3 0 = some (1/4) ∧
           okAmount (split w0 0 3 5 (.scalar (1/4)) true) 5 1 = some (3/8) := by decide +kernel
+-- stream 0 (g: water 1, l: ethanol 1/2) multiplied by 3 in place: a holder of its liquid row reads 3/2 of ethanol
+example : (match scale w0 0 3 with
+    | .ok w' => holderAmount w' { i := 3, j := 0, q := some 'l' } 1
+    | .error _ => 0) = 3/2 := by decide +kernel
 -- a single-phase feed onto a multi-phase outlet (C01-9): the outlet becomes single-phase at the feed's phase
 example : okAmount (split w0 4 0 3 (.scalar (1/4)) false) 0 0 = some 2 ∧
           okAmount (split w0 4 0 3 (.scalar (1/4)) false) 3 0 = some 6 := by decide +kernel
